@@ -63,12 +63,12 @@ var c06Toggled = []cPattern{
 
 // history event (one client call), recorded at the API boundary.
 type cInput struct {
-	Op      string // handle, remove, removeall, clean, serve, routes, url
-	Pat     string
-	Method  string
-	ID      int64 // handler id given to Handle
-	Path    string
-	Value   string
+	Op     string // handle, remove, removeall, clean, serve, routes, url
+	Pat    string
+	Method string
+	ID     int64 // handler id given to Handle
+	Path   string
+	Value  string
 }
 
 type cOutput struct {
@@ -92,13 +92,13 @@ type cEvent struct {
 }
 
 type c06Run struct {
-	c      *Ctx
-	env    *mon.Env
-	r      *mux.Router[*mon.Hnd]
-	clock  atomic.Int64
-	mu     sync.Mutex
-	events []cEvent
-	viol   []string
+	c          *Ctx
+	env        *mon.Env
+	r          *mux.Router[*mon.Hnd]
+	clock      atomic.Int64
+	mu         sync.Mutex
+	events     []cEvent
+	viol       []string
 	untouchedH map[string]*mon.Hnd
 	untouched  atomic.Int64
 }
